@@ -14,7 +14,7 @@ EXPLANATION = (
     "announced waiter (counter < 0) and bumps the counter only after a successful wake, or CASes a non-negative value up "
     "by one — with no exit that neither woke nor incremented.  The inequalities of the property as runtime invariants are not decided.")
 NOT_DECIDED = ["the admission inequalities as runtime invariants over all interleavings"]
-ASSUMPTIONS = ["FIBER_SUCCESS = 1, FIBER_ERROR = 0"]
+ASSUMPTIONS = ["FIBER_SUCCESS = 1, FIBER_ERROR = 0", "the counter does not overflow: value + pending posts < INT_MAX (a post at INT_MAX wraps; hunt/H05 finding 2 -- not decided by these rules)"]
 S = "fiber_semaphore"
 
 
